@@ -157,6 +157,8 @@ ServerConnectionsAreAcknowledged == \A c \in Clients : sv[c].st = "Active" => sv
 ClientConnectionsEchoItsNonce == \A c \in Clients : cl[c].st = "Active" => cl[c].remote[1] = 2      \* a nonce the real server drew
 Limits == /\ Cardinality({c \in Clients : sv[c].st = "Active"}) <= MaxActive
           /\ Cardinality({c \in Clients : sv[c].st # "None"}) <= MaxTotal
+(* C18: until an address has completed the handshake the server has sent it fewer bytes than it received from it *)
+NoAmplification == \A c \in Clients : ~verified[c] => (bytesOut[c] = 0 \/ bytesOut[c] < bytesIn[c])
 NoViolation == viol = {}
 TimeBound == now <= Tmax
 ====================================================================================
